@@ -123,8 +123,13 @@ def vtoken(x):
         return ('none',)
     if isinstance(x, (bool, np.bool_)):
         return ('bool', bool(x))
-    if isinstance(x, (int, float, np.integer, np.floating)):
-        return ('nan',) if x != x else ('num', float(x))
+    if isinstance(x, (int, np.integer)):
+        return ('num', int(x))
+    if isinstance(x, (float, np.floating)):
+        if x != x:
+            return ('nan',)
+        x = float(x)
+        return ('num', int(x)) if x.is_integer() else ('num', x)      # exact: 2**53 + 1 and float(2**53) are different keys
     if isinstance(x, str):
         return ('str', x)
     if isinstance(x, datetime.datetime):
